@@ -405,3 +405,82 @@ Definition bytes_format_level (builder_before flag env builder_after : option bo
   | Some b => b
   | None => false
   end.
+
+(** * Seconds given as decimal text ([--min-time], [--max-time], [DIVAN_MIN_TIME], [DIVAN_MAX_TIME])
+
+    [ParsedSeconds::from_str] is [Duration::try_from_secs_f64(f64::from_str(s)?)?].
+    For plain decimal text [digits[.digits]] with at most 9 fractional digits and
+    a value below 2^52 ns the correctly rounded [f64] and the correctly rounded
+    conversion to nanoseconds give exactly the decimal's nanoseconds (the
+    relative error 2^-53 of the [f64] moves the product by less than half a
+    nanosecond) — that part is std's and is assumed; what is modelled is the
+    exact decimal reading.  Text bytes: '+' = 43, '.' = 46, '0'..'9' = 48..57. *)
+Definition digit_of (c : N) : option N :=
+  if (48 <=? c) && (c <=? 57) then Some (c - 48) else None.
+
+Fixpoint digits_val_acc (acc : N) (l : list N) : option N :=
+  match l with
+  | [] => Some acc
+  | c :: r => match digit_of c with Some d => digits_val_acc (acc * 10 + d) r | None => None end
+  end.
+
+Definition digits_val (l : list N) : option N := digits_val_acc 0 l.
+
+(** Split at the first '.'. *)
+Fixpoint split_dot (l : list N) : list N * option (list N) :=
+  match l with
+  | [] => ([], None)
+  | c :: r => if c =? 46 then ([], Some r)
+              else let (a, b) := split_dot r in (c :: a, b)
+  end.
+
+(** Integer and fractional digit strings; [None]: not of the form
+    [+?digits[.digits]] with at least one digit. *)
+Definition decimal_parts (text : list N) : option (list N * list N) :=
+  let t := match text with 43 :: r => r | _ => text end in
+  let (ip, fp) := split_dot t in
+  let fp := match fp with Some f => f | None => [] end in
+  match ip, fp with
+  | [], [] => None
+  | _, _ => Some (ip, fp)
+  end.
+
+(** [(secs, subsec_nanos)] of the [Duration]; [None] = rejected (or more than
+    9 fractional digits, which this model does not cover). *)
+Definition decimal_nanos (text : list N) : option (N * N) :=
+  match decimal_parts text with
+  | None => None
+  | Some (ip, fp) =>
+      if (9 <? N.of_nat (length fp)) then None
+      else match digits_val ip, digits_val fp with
+           | Some i, Some f =>
+               let total := i * 10 ^ 9 + f * 10 ^ (9 - N.of_nat (length fp)) in
+               Some (total / 10 ^ 9, total mod 10 ^ 9)
+           | _, _ => None
+           end
+  end.
+
+(** Boolean specification of a parsed duration, with multiplications only:
+    [(secs * 10^9 + nanos) * 10^k = (int * 10^k + frac) * 10^9] for [k]
+    fractional digits. *)
+Definition parse_seconds_sb (text : list N) (out : option (N * N)) : bool :=
+  match decimal_parts text with
+  | None => match out with None => true | Some _ => false end
+  | Some (ip, fp) =>
+      match digits_val ip, digits_val fp with
+      | Some i, Some f =>
+          let k := N.of_nat (length fp) in
+          match out with
+          | Some (s, n) => (n <? 10 ^ 9) && ((s * 10 ^ 9 + n) * 10 ^ k =? (i * 10 ^ k + f) * 10 ^ 9)
+          | None => false
+          end
+      | _, _ => match out with None => true | Some _ => false end
+      end
+  end.
+
+(** [BenchOptions::min_time()] / [max_time()] as the loop reads them, in
+    picoseconds ([FineDuration::from(Duration)] = nanos * 1000; unset floor = 0,
+    unset ceiling = [FineDuration::MAX] = u128::MAX). *)
+Definition time_limits (o : options) : N * N :=
+  (match o_min_time o with Some n => n * 1000 | None => 0 end,
+   match o_max_time o with Some n => n * 1000 | None => 2 ^ 128 - 1 end).
